@@ -13,3 +13,13 @@ package neat
 //@   ensures [id] result.Id == t.Id
 //@   ensures [params] len(result.Params) == len(t.Params) && (forall i :: 0 <= i && i < len(t.Params) ==> result.Params[i] == t.Params[i])
 //@   ensures [seq] seq(result.Params) == seq(t.Params)
+//@ func NewTraitAvrg
+//@   props C04
+//@   requires t1 != nil && t2 != nil && ErrTraitsParametersCountMismatch != nil
+//@   modifies nothing
+//@   ensures [mismatch] len(t1.Params) != len(t2.Params) <==> result1 != nil
+//@   ensures [avg] result1 == nil ==> result0 != nil && fresh(result0) && fresh(result0.Params) && result0.Id == t1.Id && len(result0.Params) == len(t1.Params) && (forall i :: 0 <= i && i < len(t1.Params) ==> result0.Params[i] == (t1.Params[i] + t2.Params[i]) / 2.0)
+//@   loop 1:
+//@     invariant 0 <= i && i <= len(t1.Params) && nt != nil && fresh(nt) && fresh(nt.Params) && len(nt.Params) == len(t1.Params) && nt.Id == t1.Id && len(t1.Params) == len(t2.Params)
+//@     invariant forall k :: 0 <= k && k < i ==> nt.Params[k] == (t1.Params[k] + t2.Params[k]) / 2.0
+//@     invariant forall b :: wasAllocated(b) ==> Mem[float64][b] == old(Mem[float64][b])
